@@ -595,6 +595,8 @@ class SrvAdapter:
                 res = ['ok', self._session_block(a)]
             elif act == 'SessionNested':
                 res = ['ok', self._session_nested(a)]
+            elif act == 'SessionBlockD':
+                res = ['ok', self._session_block_d(a)]
             elif act == 'GetEnviron':
                 r = sio.get_environ(self._real_sid(a['sid']),
                                     namespace=a['ns'])
@@ -695,6 +697,48 @@ class SrvAdapter:
             before = self._sess_tok(s)
             s.clear()
             s['k_' + a['val']] = 1
+            return before
+
+    def _session_block_d(self, a):
+        """A session block that is still open while its client leaves the
+        namespace, comes back as a new session id on the same transport and
+        has a session saved (what another thread / task does meanwhile is
+        done inline here)."""
+        sio = self.sio
+        ns = a['ns']
+        sid = self._real_sid(a['sid'])
+        eid = sio.manager.eio_sid_from_sid(sid, ns)
+        t = [k for k, v in self.eid.items() if v == eid][0]
+        sock = self.socks[t]
+        enc = refcodec.mp_encode if self.cfg.get('serializer') == 'msgpack' \
+            else refcodec.ref_encode
+        frames = [enc(1, ns)[0], enc(0, ns, None, None)[0]]
+
+        def new_sid():
+            real = sio.manager.sid_from_eio_sid(eid, ns)
+            if self._name(real) != a['newsid']:
+                raise RuntimeError('harness: unexpected session id')
+            return real
+        if self.is_async:
+            async def _w():
+                async with sio.session(sid, namespace=ns) as s:
+                    before = self._sess_tok(s)
+                    s.clear()
+                    s['k_' + a['val']] = 1
+                    for f in frames:
+                        await sock.receive(eio_packet.Packet(
+                            eio_packet.MESSAGE, f))
+                    await sio.save_session(new_sid(), {'k_' + a['val2']: 1},
+                                           namespace=ns)
+                    return before
+            return self._run(_w())
+        with sio.session(sid, namespace=ns) as s:
+            before = self._sess_tok(s)
+            s.clear()
+            s['k_' + a['val']] = 1
+            for f in frames:
+                self._feed(t, f)
+            sio.save_session(new_sid(), {'k_' + a['val2']: 1}, namespace=ns)
             return before
 
     def _session_nested(self, a):
